@@ -83,9 +83,12 @@ GTBases == IF Tier = "quick" THEN { GTGen, RefPairing(M1(FromNat(3)), M2(FromNat
 Near(k, js) == { Sub(Pow2(k), FromNat(jj)) : jj \in js \ {0} } \cup { Add(Pow2(k), FromNat(jj)) : jj \in js }
 XFam == LET x == XAbs  x2 == Mul(x, x)  x3 == Mul(x2, x) IN
         { Sub(x, One), x, Add(x, One), Sub(x2, One), x2, Add(x2, One), Sub(x3, One), x3, Add(x3, One), Mul(x3, Sub(x, One)), Sub(Mul(x3, x), One) }
+\* values that coincide with constants the arithmetic uses internally (Montgomery R, R^2, -1/r mod 2^64 ...): a shortcut keyed on the
+\* internal representation mistakes them for 0 or 1
+InternalConsts == { ModN(Pow2(256), RMod), ModN(Pow2(512), RMod), Sub(RMod, ModN(Pow2(256), RMod)), ModN(Pow2(384), RMod) }
 Exps == { s \in { Zero, One, Two, FromNat(3), Sub(RMod, One), RMod, Add(RMod, One), Add(RMod, RMod), Sub(Add(RMod, RMod), One), Add(Add(RMod, RMod), One),
                   Sub(Pow2(256), One), Sub(Pow2(256), Two), Pow2(255), Sub(Pow2(255), One), ModPow2(Mul(Rnd(30), Rnd(31)), 256) }
-                \cup XFam \cup Near(64, {0, 1}) \cup Near(128, {0, 1}) \cup Near(192, {0, 1}) : Lt(s, Pow2(256)) }
+                \cup XFam \cup Near(64, {0, 1}) \cup Near(128, {0, 1}) \cup Near(192, {0, 1}) \cup InternalConsts : Lt(s, Pow2(256)) }
 LE(v, n) == [i \in 1..n |-> Pad(v, n)[i]]
 Cat(ss) == FoldLeft(LAMBDA a, b : a \o b, <<>>, ss)
 DigitsOf(y) == <<ModN(y, XAbs), ModN(Div(y, XAbs), XAbs), ModN(Div(y, Mul(XAbs, XAbs)), XAbs), Div(y, Mul(XAbs, Mul(XAbs, XAbs)))>>
